@@ -205,21 +205,21 @@ theorem encoder_definitions_validate (P : Profile) (g : Nat) (pm : PMsg) (pf : P
   validate_fdOf P g pm pf (fieldWF_facts pm pf h) hgf
 
 /-- **What `Encode` writes is a well-formed, self-describing FIT file** (whole File, every container
-    field): a 14-byte header with its CRC, records that are the serialisation of items in which
+    field): a 12-byte header, or a 14-byte header with its CRC, records that are the serialisation of items in which
     every data record fits the definition live for its local type — starting with the file_id
     definition and data record — and the file CRC. With `whole_file_framing` (C02) this is exactly
     the input shape on which `Decode` is shown to do what the record machine does. -/
 theorem encode_wellformed (P : Profile) (hwf : ProfileWF P = true) (arch : Endian) (f f' : FileSt) (bs : Bytes)
-    (h : encode P arch f = .ok bs f') (hs : f.hdr.size = headerSizeCRC) (ht : f.hdr.dtype = fitTag)
+    (h : encode P arch f = .ok bs f') (hs : f.hdr.size = headerSizeNoCRC ∨ f.hdr.size = headerSizeCRC) (ht : f.hdr.dtype = fitTag)
     (hsmall : bs.length < 4294967296) :
     ∃ (d0 : DefMsg) (parts0 : List Bytes) (rest : List Item),
       d0.global = f.fileId.num ∧ d0.localT = 0 ∧
-      bs = frameBytes f.hdr.proto f.hdr.profile (serialize (.defn d0 false :: .data 0 parts0 [] :: rest)) ∧
+      bs = frameBytesK (kindOfSize f.hdr.size) f.hdr.proto f.hdr.profile (serialize (.defn d0 false :: .data 0 parts0 [] :: rest)) ∧
       ItemsFitD P (List.replicate 16 none) (.defn d0 false :: .data 0 parts0 [] :: rest) :=
   Fit.encode_wellformed P hwf arch f f' bs h hs ht hsmall
 
 /-- **`Decode` accepts what `Encode` wrote.** On a well-formed profile, for every File that `Encode`
-    accepts and that lies in `FileInDomain` — a 14-byte ".FIT" header, a file_id message whose valid
+    accepts and that lies in `FileInDomain` — a 12- or 14-byte ".FIT" header, a file_id message whose valid
     fields round-trip (the kinds covered in C06) and whose other fields hold the constructor's
     invalid values, and messages of known types only — the bytes written, followed by anything and
     read with either way of ending, decode successfully: header and header CRC, file_id prelude,
